@@ -610,9 +610,51 @@ def atomic_conditions(t):
     return out
 
 
+def map_children(t, f):
+    """rebuild a term node with f applied to each child term"""
+    k = t[0]
+    if k == "phi":
+        return ("phi", f(t[1]), f(t[2]), f(t[3]))
+    if k == "call":
+        return ("call", t[1], tuple(f(x) for x in t[2]), tuple((kk, f(v)) for kk, v in t[3]))
+    if k == "callv":
+        return ("callv", f(t[1]), tuple(f(x) for x in t[2]), tuple((kk, f(v)) for kk, v in t[3]))
+    if k == "method":
+        return ("method", t[1], f(t[2]), tuple(f(x) for x in t[3]), tuple((kk, f(v)) for kk, v in t[4]))
+    if k == "inl":
+        return ("inl", t[1], f(t[2]))
+    if k in ("attr", "item"):
+        return (k, f(t[1]), t[2])
+    if k in ("binop", "cmp"):
+        return (k, t[1], f(t[2]), f(t[3]))
+    if k == "bool":
+        return ("bool", t[1], tuple(f(x) for x in t[2]))
+    if k == "not":
+        return ("not", f(t[1]))
+    if k == "unop":
+        return ("unop", t[1], f(t[2]))
+    if k == "sub":
+        return ("sub", f(t[1]), f(t[2]))
+    if k == "slice":
+        return ("slice",) + tuple(f(x) for x in t[1:5])
+    if k in ("tuple", "list", "set", "fstring"):
+        return (k, tuple(f(x) for x in t[1]))
+    if k == "dict":
+        return ("dict", tuple((f(a), f(b)) for a, b in t[1]))
+    if k == "comp":
+        return ("comp", t[1], f(t[2]), tuple((g[0], f(g[1]), tuple(f(i) for i in g[2])) for g in t[3]))
+    if k == "mut":
+        return ("mut", t[1], f(t[2]), tuple(f(x) for x in t[3]))
+    if k == "var" and len(t) > 2:
+        return ("var", t[1], f(t[2]))
+    if k == "starred":
+        return ("starred", f(t[1]))
+    return t
+
+
 def resolve_under(t, valuation):
-    """Resolve the phi nodes of `t` under `valuation(atom) -> True/False/None`; phi nodes whose
-    condition stays undecided are kept."""
+    """Resolve the phi nodes of `t` (at any depth) under `valuation(atom) -> True/False/None`; phi nodes
+    whose condition stays undecided are kept."""
     def tv(c):
         if c[0] == "not":
             v = tv(c[1])
@@ -630,13 +672,23 @@ def resolve_under(t, valuation):
             return bool(c[1])
         return valuation(c)
 
+    memo = {}
+
     def go(x):
+        if not isinstance(x, tuple) or not x:
+            return x
+        key = id(x)
+        if key in memo:
+            return memo[key][1]
+        orig = x
         while x[0] == "phi":
             v = tv(x[1])
             if v is None:
-                return ("phi", x[1], go(x[2]), go(x[3]))
+                break
             x = x[2] if v else x[3]
-        return x
+        r = map_children(x, go) if x[0] != "phi" else ("phi", x[1], go(x[2]), go(x[3]))
+        memo[key] = (orig, r)
+        return r
     return go(t)
 
 
